@@ -60,7 +60,7 @@ package freelist
 //@   loop 0 invariant [dom] forall tid common.Txid :: has(t.pending, tid) == (old(has(t.pending, tid)) && !(visited(tid) && tid <= txid))
 //@   loop 0 invariant [vals] forall tid common.Txid :: old(has(t.pending, tid)) ==> t.pending[tid] == old(t.pending[tid])
 //@   loop 0 invariant [vis] forall tid common.Txid :: visited(tid) ==> old(has(t.pending, tid))
-//@   loop 0 invariant [msafe] forall k int :: 0 <= k && k < len(m) ==> (exists wt common.Txid :: wt <= txid && old(inpend(t, wt, m[k])))
+//@   loop 0 invariant [msafe] forall k int :: 0 <= k && k < len(m) ==> (let p := m[k] in (exists wt common.Txid :: wt <= txid && old(inpend(t, wt, p))))
 //@   loop 0 invariant [mcomplete] forall tid common.Txid, j int :: visited(tid) && tid <= txid && 0 <= j && j < old(len(t.pending[tid].ids)) ==> inids(m, old(t.pending[tid].ids[j]))
 //@   loop 0 invariant [mfresh] fresh(arrayof(m)) && len(m) >= 0
 //@   loop 0 invariant [same] sameheap("txPending.ids") && gfree == old(gfree) && t.Interface == old(t.Interface)
